@@ -3,6 +3,11 @@ package checks
 import (
 	"encoding/json"
 	"fmt"
+	"os"
+	"os/exec"
+	"path/filepath"
+	"strings"
+	"sync"
 
 	"verif/internal/core"
 	"verif/internal/sessmc"
@@ -21,6 +26,7 @@ type searchSpec struct {
 	stateCheck func(w *sessmc.World, mons []sessmc.Monitor) (string, string)
 	variant    string
 	maxStates  int
+	conform    int // number of frontier traces to offer to the run-loop conformance replay
 }
 
 var variantDefs = map[string]func(cfg sessmc.Config) searchSpec{}
@@ -82,10 +88,98 @@ func runSearch(c *core.Ctx, sp searchSpec) *sessmc.Explorer {
 		c.Violation(v.Rule+" cfg="+v.Cfg.String(), fmt.Sprintf("%s | path=%v", v.What, v.Path), "sess/seq",
 			sessReplay{Variant: sp.variant, Cfg: v.Cfg, Names: v.Path, Rule: v.Rule, Probe: v.Probe, Trace: v.Trace})
 	}
+	if sp.conform > 0 {
+		collectConformance(x, sp, sp.conform)
+	}
 	for _, p := range x.SamplePaths {
 		if c.NumSamples() < 8 {
 			c.Sample(map[string]any{"variant": sp.variant, "config": sp.cfg.String(), "path": p})
 		}
 	}
 	return x
+}
+
+// ---- conformance: replay explored traces through the real run() loop (see conform_test.go) ----
+
+type conformTrace struct {
+	Variant string
+	Cfg     sessmc.Config
+	Names   []string
+}
+
+var (
+	conformMu     sync.Mutex
+	conformTraces []conformTrace
+)
+
+// collectConformance keeps up to n evenly spaced paths of an explorer's last frontier.
+func collectConformance(x *sessmc.Explorer, sp searchSpec, n int) {
+	if len(x.Frontier) == 0 {
+		return
+	}
+	step := len(x.Frontier)/n + 1
+	conformMu.Lock()
+	defer conformMu.Unlock()
+	for i := 0; i < len(x.Frontier); i += step {
+		names := []string{}
+		for _, e := range sp.prefix {
+			names = append(names, "prefix:"+e.Name)
+		}
+		for _, ai := range x.Frontier[i] {
+			names = append(names, sp.alphabet[ai].Name)
+		}
+		conformTraces = append(conformTraces, conformTrace{Variant: sp.variant, Cfg: sp.cfg, Names: names})
+	}
+}
+
+// runConformance replays the collected traces with the second toolchain (testing/synctest needs go >= 1.25).
+func runConformance(c *core.Ctx) {
+	conformMu.Lock()
+	items := conformTraces
+	conformTraces = nil
+	conformMu.Unlock()
+	if len(items) == 0 {
+		return
+	}
+	dir, cleanup := core.Scratch("conform")
+	defer cleanup()
+	in, out := filepath.Join(dir, "in.json"), filepath.Join(dir, "out.json")
+	b, _ := json.Marshal(items)
+	if err := os.WriteFile(in, b, 0o644); err != nil {
+		c.EngineError(err.Error())
+		return
+	}
+	cmd := exec.Command("go1.26.8", "test", "-tags", "verif conform", "-run", "^TestConform$", "-count=1", "-vet=off", "./checks")
+	cmd.Dir = core.VerifDir
+	cmd.Env = append(os.Environ(), "GOFLAGS=-mod=mod", "GOPROXY=off", "GOSUMDB=off", "GOTOOLCHAIN=local", "CGO_ENABLED=1", "CONFORM_IN="+in, "CONFORM_OUT="+out)
+	log, err := cmd.CombinedOutput()
+	ob, rerr := os.ReadFile(out)
+	if rerr != nil {
+		c.Set("conformance", "not run: "+strings.TrimSpace(lastLines(string(log), 3))+fmt.Sprint(err))
+		return
+	}
+	var res struct {
+		Validated  int      `json:"validated"`
+		Skipped    int      `json:"skipped"`
+		Events     int      `json:"events_replayed"`
+		Mismatches []string `json:"mismatches"`
+	}
+	json.Unmarshal(ob, &res)
+	c.AddTraces(int64(res.Validated))
+	c.Set("conformance_traces_offered", len(items))
+	c.Set("conformance_traces_not_replayable_in_loop_mode", res.Skipped)
+	c.Set("conformance_events_replayed", res.Events)
+	for i, m := range res.Mismatches {
+		if i < 3 {
+			c.EngineError("run-loop conformance mismatch (the synchronous driver does not reproduce the real loop): " + m)
+		}
+	}
+}
+
+func lastLines(s string, n int) string {
+	ls := strings.Split(strings.TrimSpace(s), "\n")
+	if len(ls) > n {
+		ls = ls[len(ls)-n:]
+	}
+	return strings.Join(ls, " | ")
 }
